@@ -24,6 +24,115 @@ type C12Case struct {
 	// Mixed (form "mixed-kinds"): the values of column g of table t, as tokens "<go type>:<text>"; the
 	// document is built from them at check time because JSON cannot carry Go types. Column v numbers the rows.
 	Mixed []string `json:"mixed,omitempty"`
+	// Between: an evaluation of its own (own document, own text) that runs in the same process between the first
+	// execution and every re-execution. It is not judged - it may fail, and mostly does: what the judged query
+	// returns on an equal input does not depend on what the engine evaluated, or failed to evaluate, in between.
+	Between *C12Step `json:"between,omitempty"`
+}
+
+// C12Step is an evaluation whose outcome is ignored. Sound is its document before the damage (equal to Doc when
+// there is none): the same text on Sound is evaluated before the first execution and after the last one, and these two
+// evaluations of one query on equal inputs are judged like any other repetition. It also makes the case self-contained:
+// nothing the failing evaluation may have left behind in the process outlives the case.
+type C12Step struct {
+	Doc   map[string]any `json:"doc"`
+	Sound map[string]any `json:"sound"`
+	SQL   string         `json:"sql"`
+	Fault string         `json:"fault"` // none | <kind>@first-key | <kind>@later-key, for the labels only
+}
+
+// genC12Between draws a sibling join p x <op> s y over 1-3 equi conjuncts whose key columns are plain columns,
+// paths into a nested object (`m.n`) or elements of an array (`a[1]`), on tables of 1-4 rows, and (3 of 4) damages one
+// key column of one row of one table so that reading it fails (a scalar where the path expects an object, an array
+// too short for the index): the join then gives up in the middle of the keys of that row, after any number of
+// rows and key columns that were read fine.
+func genC12Between(t *rapid.T) *C12Step {
+	nk := rapid.IntRange(1, 3).Draw(t, "between.nkeys")
+	fault := rapid.IntRange(0, 3).Draw(t, "between.fault") != 0
+	fk := rapid.IntRange(0, nk-1).Draw(t, "between.fault.key")
+	shapes := make([]string, nk)
+	for i := range shapes {
+		if fault && i == fk {
+			shapes[i] = rapid.SampledFrom([]string{"path", "index"}).Draw(t, fmt.Sprintf("between.k%d.shape", i))
+		} else {
+			shapes[i] = rapid.SampledFrom([]string{"plain", "path", "index"}).Draw(t, fmt.Sprintf("between.k%d.shape", i))
+		}
+	}
+	pool := []any{1.0, 2.0, "a"}
+	cell := func(shape string, v any) any {
+		switch shape {
+		case "path":
+			return map[string]any{"n": v}
+		case "index":
+			return []any{7.0, v}
+		}
+		return v
+	}
+	sel := func(i int) string {
+		switch shapes[i] {
+		case "path":
+			return fmt.Sprintf("`c%d.n`", i)
+		case "index":
+			return fmt.Sprintf("`c%d[1]`", i)
+		}
+		return fmt.Sprintf("c%d", i)
+	}
+	tables := map[string]any{}
+	sizes := map[string]int{}
+	for _, name := range []string{"p", "s"} {
+		n := rapid.IntRange(1, 4).Draw(t, "between."+name+".rows")
+		sizes[name] = n
+		rows := make([]any, n)
+		for r := range rows {
+			row := map[string]any{"w": float64(r + 1)}
+			for i := range shapes {
+				row[fmt.Sprintf("c%d", i)] = cell(shapes[i], rapid.SampledFrom(pool).Draw(t, fmt.Sprintf("between.%s.r%d.c%d", name, r, i)))
+			}
+			rows[r] = row
+		}
+		tables[name] = rows
+	}
+	st := &C12Step{Doc: tables, Sound: val.CopyMap(tables), Fault: "none"}
+	if fault {
+		tb := rapid.SampledFrom([]string{"p", "s"}).Draw(t, "between.fault.table")
+		r := rapid.IntRange(0, sizes[tb]-1).Draw(t, "between.fault.row")
+		row := tables[tb].([]any)[r].(map[string]any)
+		kind := "scalar-under-path"
+		if shapes[fk] == "index" {
+			kind = "array-too-short"
+			row[fmt.Sprintf("c%d", fk)] = []any{7.0}
+		} else {
+			row[fmt.Sprintf("c%d", fk)] = 5.0
+		}
+		pos := "first-key"
+		if fk > 0 {
+			pos = "later-key"
+		}
+		st.Fault = kind + "@" + pos
+	}
+	op := rapid.SampledFrom([]string{"JOIN", "LEFT JOIN", "RIGHT JOIN", "HASH_JOIN", "LEFT HASH_JOIN"}).Draw(t, "between.op")
+	on := make([]string, nk)
+	for i := range on {
+		if rapid.Bool().Draw(t, fmt.Sprintf("between.k%d.swap", i)) {
+			on[i] = "y." + sel(i) + " = x." + sel(i)
+		} else {
+			on[i] = "x." + sel(i) + " = y." + sel(i)
+		}
+	}
+	st.SQL = fmt.Sprintf("SELECT x.w AS xw, y.w AS yw FROM p x %s s y ON %s", op, strings.Join(on, " AND "))
+	return st
+}
+
+// c12WithBetween adds the unjudged evaluation in between to 1 of 2 cases whose query joins and to 1 of 10 others.
+func c12WithBetween(t *rapid.T, c *C12Case) *C12Case {
+	odds := 9
+	if strings.Contains(c.SQL, "JOIN") {
+		odds = 1
+	}
+	if rapid.IntRange(0, odds).Draw(t, "between") == 0 {
+		c.Between = genC12Between(t)
+	}
+	return c
 }
 
 // c12MixedPool: values of different kinds and Go types that are equal under one notion of equality and
@@ -195,11 +304,11 @@ func genC12(t *rapid.T) any {
 			"union":         "SELECT g FROM t UNION SELECT g FROM t2",
 			"where-equals":  "SELECT a.v, (SELECT w FROM `<-t2` WHERE g = `<-.g`) AS ws FROM t a",
 		}[c.Position]
-		return c
+		return c12WithBetween(t, c)
 	}
 	if rapid.IntRange(0, 3).Draw(t, "wide") == 0 {
 		w := genWide(t, nil)
-		return &C12Case{Doc: w.Doc, SQL: w.SQL(-1, ""), Wrapped: w.Wrapped, Unordered: w.Unordered, Form: "wide", Position: w.Construct}
+		return c12WithBetween(t, &C12Case{Doc: w.Doc, SQL: w.SQL(-1, ""), Wrapped: w.Wrapped, Unordered: w.Unordered, Form: "wide", Position: w.Construct})
 	}
 	doc, sc := genC07Doc(t)
 	forms := c12Forms(sc)
@@ -210,7 +319,7 @@ func genC12(t *rapid.T) any {
 		where = fmt.Sprintf(" WHERE %s %s %s", sc.v, rapid.SampledFrom([]string{">", "<", "!="}).Draw(t, "wop"), rapid.SampledFrom([]string{"0", "1", "2.5"}).Draw(t, "wc"))
 	}
 	join := rapid.SampledFrom([]string{"JOIN", "LEFT JOIN", "HASH_JOIN", "PARALLEL JOIN"}).Draw(t, "join")
-	return c12Render(doc, sc, f, pos, where, join)
+	return c12WithBetween(t, c12Render(doc, sc, f, pos, where, join))
 }
 
 var c12AsyncDirect = map[string]bool{"select-item": true, "select-item-unaliased": true, "star-plus-item": true, "joined-select-list": true, "cte-select-list": true,
@@ -338,6 +447,11 @@ func checkC12(c *C12Case) Result {
 		injReset(0, 0)
 		return Run(c.doc(), c.SQL, opts, genql.WithVars(map[string]any{"reg": 1.0}), genql.WithConstants(map[string]any{"pi": 3.14}), genql.UnReportedErrors(func(error) {}))
 	}
+	var twin Out
+	if c.Between != nil {
+		twin = Run(val.CopyMap(c.Between.Sound), c.Between.SQL, Opts{})
+		res.Execs++
+	}
 	first := run()
 	res.Execs++
 	outcome := "ok"
@@ -347,9 +461,12 @@ func checkC12(c *C12Case) Result {
 		outcome = "error"
 	}
 	res.Labels = append(res.Labels, "form:"+c.Form, "position:"+c.Position, c.Form+"@"+c.Position+":"+outcome)
+	if c.Between != nil {
+		res.Labels = append(res.Labels, "between:"+c.Between.Fault)
+	}
 	if !first.OK() {
 		// rejected combinations are outside "a successful result"; panics belong to C10
-		return res
+		return c12Settle(c, twin, res)
 	}
 	res.NonTrivial = len(first.Raw) > 0 && c.Form != "column" && c.Form != "string-column"
 	if d := val.PlainWalk(first.Raw); d != "" {
@@ -365,6 +482,11 @@ func checkC12(c *C12Case) Result {
 		repeats = 24 // choices that depend on the iteration order of a Go map show up in a fraction of the runs only
 	}
 	for i := 0; i < repeats; i++ {
+		if c.Between != nil {
+			// not judged: only what the judged query returns afterwards counts
+			Run(val.CopyMap(c.Between.Doc), c.Between.SQL, Opts{})
+			res.Execs++
+		}
 		again := run()
 		res.Execs++
 		if !again.OK() {
@@ -379,8 +501,30 @@ func checkC12(c *C12Case) Result {
 		}
 		if !same {
 			res.Violation = fmt.Sprintf("%s\n  execution 1: %s\n  execution %d on an equal input: %s", c.SQL, val.JSON(first.Rows), i+2, val.JSON(again.Rows))
+			if c.Between != nil {
+				res.Violation += fmt.Sprintf("\n  evaluated in between (not judged, fault %s): %s on %s", c.Between.Fault, c.Between.SQL, val.JSON(c.Between.Doc))
+			}
 			return res
 		}
+	}
+	return c12Settle(c, twin, res)
+}
+
+// c12Settle ends a case that has an evaluation in between: that evaluation once more (a case whose judged query failed
+// has not run it yet), then its text on the undamaged document, which must return what it returned before the first execution.
+func c12Settle(c *C12Case, twin Out, res Result) Result {
+	if c.Between == nil {
+		return res
+	}
+	Run(val.CopyMap(c.Between.Doc), c.Between.SQL, Opts{})
+	after := Run(val.CopyMap(c.Between.Sound), c.Between.SQL, Opts{})
+	res.Execs += 2
+	if !twin.OK() {
+		return res
+	}
+	if !after.OK() || !val.MultisetEqual(twin.Rows, after.Rows) {
+		res.Violation = fmt.Sprintf("%s\n  on %s\n  execution 1: %s\n  execution 2 on an equal input: %s\n  evaluated in between (not judged, fault %s): the same text on %s, and %s",
+			c.Between.SQL, val.JSON(c.Between.Sound), val.JSON(twin.Rows), after.Describe(), c.Between.Fault, val.JSON(c.Between.Doc), c.SQL)
 	}
 	return res
 }
@@ -397,7 +541,9 @@ func init() {
 			"successful result: reflective walk (only maps with string keys, slices, strings, Go numeric kinds, bools, nil; no type declared by " +
 			"the library, no pointer/func/struct, no key `<-`, no cycle, finite numbers), json.Marshal succeeds, and two re-executions on fresh equal " +
 			"inputs return the identical sequence (multiset when GROUP BY / joins / UNION leave the order open). Non-trivial: >=1 output row and a " +
-			"form other than a plain column. Combinations the engine rejects with an error are counted under their own label.",
+			"form other than a plain column. Combinations the engine rejects with an error are counted under their own label. History: 1 of 2 queries with a join and 1 of 10 others get an unjudged evaluation of its own " +
+			"between the first execution and every re-execution, in the same process: a sibling join (JOIN / LEFT / RIGHT / HASH_JOIN) over 1-3 equi conjuncts on plain, `m.n` and `a[1]` key columns of 1-4 row tables, in 3 of 4 with one key column of one row unreadable " +
+			"(scalar under the path, array too short; first or later key, any row, either table) so that it fails midway; whatever it does, the re-execution must return what the first execution returned, and so must the text of that join on its undamaged document, evaluated before the first execution and again after the last.",
 		Assumptions: []string{
 			"TIMESTAMP() and stateful user functions are excluded from the determinism half; no zero divisors",
 			"ASYNC calls are direct operands of the position (the statement covers ASYNC used directly as a select-list item; other positions are checked only when the engine accepts them)",
